@@ -446,6 +446,105 @@ func c15EqualDeadlines() *sched.Scenario {
 		}}
 }
 
+// ---------------------------------------------------------------- C06
+
+// c06Realloc: Refresh 0 followed at once by a new Allocate on the same 5-tuple,
+// while the goroutines of the first allocation (its relay read loop, which
+// sees the closed socket; its lifetime timer) are still winding down. In every
+// schedule the second allocation, once its success response is out, exists
+// until ITS lifetime: it still answers a Refresh afterwards and is the one
+// allocation the server counts.
+func c06Realloc() *sched.Scenario {
+	return &sched.Scenario{Name: "c06-refresh0-then-allocate-vs-old-relay-loop", Bound: bound(), FreeBound: 3, Opt: opt,
+		Body: func(*vsched.Sched) (func() []string, func()) {
+			w := sched.NewBW(sched.BCfg{})
+			c := w.NewClient("c1")
+			var nt notes
+			vsched.Go("client", func() {
+				c.Do(wire.Allocate, udp)
+				vsched.Mark()
+				if r := c.Do(wire.Refresh, lifetime(0)); r.Class != wire.Success {
+					nt.set("refresh0", "failed")
+				}
+				if r := c.Do(wire.Allocate, udp); r.Class != wire.Success {
+					nt.set("second", fmt.Sprintf("refused-%d", r.ErrorCode()))
+
+					return
+				}
+				nt.set("second", "ok")
+				vsched.IdleSleep(time.Second)
+				r := c.Do(wire.Refresh, lifetime(600))
+				nt.set("alive", fmt.Sprintf("%d/%d", r.Class, r.ErrorCode()))
+				nt.set("count", fmt.Sprint(w.Srv.AllocationCount()))
+			})
+
+			return func() []string {
+				var out []string
+				switch {
+				case nt.get("refresh0") != "":
+					out = append(out, "c06:refresh0-refused")
+				case nt.get("second") == "":
+					out = append(out, "c06:client-never-completed")
+				case nt.get("second") != "ok":
+					out = append(out, "c06:allocate-after-refresh0-"+nt.get("second"))
+				case nt.get("alive") == "":
+					out = append(out, "c06:allocation-gone-before-its-lifetime:refresh-unanswered")
+				case nt.get("alive") != fmt.Sprintf("%d/0", wire.Success) || nt.get("count") != "1":
+					out = append(out, fmt.Sprintf("c06:allocation-gone-before-its-lifetime:refresh=%s,count=%s", nt.get("alive"), nt.get("count")))
+				}
+
+				return out
+			}, func() { _ = w.Srv.Close() }
+		}}
+}
+
+// c06ReallocVsTimer: the same with the first allocation's lifetime timer: it
+// fires (its goroutine is started) at the moment the client deletes the
+// allocation and allocates again; the late timer goroutine must not take the
+// new allocation with it.
+func c06ReallocVsTimer() *sched.Scenario {
+	return &sched.Scenario{Name: "c06-refresh0-then-allocate-vs-old-lifetime-timer", Bound: bound(), FreeBound: 3, Opt: opt,
+		Body: func(*vsched.Sched) (func() []string, func()) {
+			w := sched.NewBW(sched.BCfg{})
+			c := w.NewClient("c1")
+			var nt notes
+			vsched.Go("client", func() {
+				c.Do(wire.Allocate, func(b *wire.B) { udp(b); b.U32(wire.AttrLifetime, 1) })
+				vsched.IdleSleep(time.Second - time.Nanosecond) // the lifetime timer is due in 1 ns
+				vsched.Mark()
+				c.Fire(wire.Refresh, lifetime(0)) // success, or no answer when the timer was first
+				vsched.IdleSleep(10 * time.Millisecond)
+				c.Inbox = nil
+				r := c.Do(wire.Allocate, udp)
+				if r.Class != wire.Success {
+					nt.set("second", fmt.Sprintf("refused-%d", r.ErrorCode()))
+
+					return
+				}
+				nt.set("second", "ok")
+				vsched.IdleSleep(2 * time.Second)
+				r = c.Do(wire.Refresh, lifetime(600))
+				nt.set("alive", fmt.Sprintf("%d/%d", r.Class, r.ErrorCode()))
+				nt.set("count", fmt.Sprint(w.Srv.AllocationCount()))
+			})
+
+			return func() []string {
+				switch {
+				case nt.get("second") == "":
+					return []string{"c06:client-never-completed"}
+				case nt.get("second") != "ok":
+					return []string{"c06:allocate-after-the-first-allocation-ended-" + nt.get("second")}
+				case nt.get("alive") == "":
+					return []string{"c06:allocation-gone-before-its-lifetime:refresh-unanswered"}
+				case nt.get("alive") != fmt.Sprintf("%d/0", wire.Success) || nt.get("count") != "1":
+					return []string{fmt.Sprintf("c06:allocation-gone-before-its-lifetime:refresh=%s,count=%s", nt.get("alive"), nt.get("count"))}
+				}
+
+				return nil
+			}, func() { _ = w.Srv.Close() }
+		}}
+}
+
 func run(t *testing.T, prop string, scs ...*sched.Scenario) {
 	r := rep.New(prop)
 	defer r.Write()
@@ -458,6 +557,7 @@ func run(t *testing.T, prop string, scs ...*sched.Scenario) {
 }
 
 func TestC02Sched(t *testing.T) { run(t, "C02", c02ExpiryRace()) }
+func TestC06Sched(t *testing.T) { run(t, "C06", c06Realloc(), c06ReallocVsTimer()) }
 func TestC04Sched(t *testing.T) { run(t, "C04", c04TwoConns()) }
 func TestC16Sched(t *testing.T) { run(t, "C16", c16TwoBinds(), c16BindVsTimeout()) }
 func TestC15Sched(t *testing.T) {
